@@ -30,7 +30,7 @@ RULE_HOME = {
     'W1': 'w_api', 'W2': 'w_api', 'W3': 'w_api', 'W4': 'w_api', 'W5': 'w_api', 'W6': 'w_api',
     'G2': 'g_lex', 'G4': 'g_lex',
     'S1': 's_state', 'S2': 's_state', 'S3': 's_state', 'S4': 's_state', 'S5': 's_state', 'S6': 's_state', 'S7': 's_state',
-    'P1': 'p_panic', 'X4': 'x_emit', 'X13': 'x_macro', 'X14': 'x_macro', 'X15': 'x_macro', 'X16': 'x_macro', 'X17': 'x_range', 'X18': 'x_split', 'X19': 'x_split', 'G6t': 'g_alt', 'G16': 'g_args', 'G17': 'g_args', 'G18': 'g_args', 'G22': 'g_args', 'G19': 'g_tail', 'G20': 'g_tail', 'P3': 'p_errors',
+    'P1': 'p_panic', 'X4': 'x_emit', 'X13': 'x_macro', 'X14': 'x_macro', 'X15': 'x_macro', 'X16': 'x_macro', 'X17': 'x_range', 'X20': 'x_range', 'X18': 'x_split', 'X19': 'x_split', 'G6t': 'g_alt', 'G16': 'g_args', 'G17': 'g_args', 'G18': 'g_args', 'G22': 'g_args', 'G19': 'g_tail', 'G20': 'g_tail', 'P3': 'p_errors',
 }
 
 
@@ -116,14 +116,14 @@ PROPS = {
         'technique': 'call-graph reachability + constructor coverage over the CST type graph; ordered-choice prefix analysis',
     },
     'C03': {
-        'rules': [rule('X1'), rule('X2'), rule('X3'), rule('X17'), rule('X14', keep=['define-record', 'write-conditional:define'])],
+        'rules': [rule('X1'), rule('X2'), rule('X3'), rule('X17'), rule('X20'), rule('X14', keep=['define-record', 'write-conditional:define'])],
         'explanation': 'Every emission site that copies source text records Range(offset, offset+len) of exactly that text under the '
                        'file being read (X1, 21 sites); only new/push/merge write the text and the map, push keys each segment by '
                        '[len before, len before + s.len()) and merge re-bases keys and origins (X3), so keys tile the output; keys '
                        'are never empty (X2), which is what Range\'s overlap-as-equality ordering needs for a 1-byte probe to find '
                        'exactly the segment containing it; text without origin is pushed only by the `__FILE__/`__LINE__ arm and '
                        'expansions carry the origin stored with the macro definition (X3).',
-        'decided': 'X1 X2 X3 X14d X17 (X14d: the Define recorded by a `define — whose body origin is what an expansion is attributed to — is built from that directive and written on every path through the handler; X17: Range::eq / cmp interpreted on all 13 order types of the four endpoints: eq is overlap, cmp is Equal iff overlap else by begin)',
+        'decided': 'X1 X2 X3 X14d X17 X20 (X20: origin(pos) probes the one byte at pos, translates by the segment offset, and is None only when the map has no entry or the segment has no origin — on every path, for every valid position of a small domain; X14d: the Define recorded by a `define — whose body origin is what an expansion is attributed to — is built from that directive and written on every path through the handler; X17: Range::eq / cmp interpreted on all 13 order types of the four endpoints: eq is overlap, cmp is Equal iff overlap else by begin)',
         'not_decided': 'that macro origins are "not before the macro body"; double emissions after string literals (X4, registered with C06)',
         'assumptions': ['BTreeMap look-up with a consistent order on disjoint non-empty ranges'],
         'level_text': 'Exhaustive static audit of all emission sites and writers of the origin map; an emission whose recorded range is '
@@ -179,14 +179,14 @@ PROPS = {
         'technique': 'named-parameter threading lint + must-adopt / control-dependence checks',
     },
     'C14': {
-        'rules': [rule('G10'), rule('W3'), rule('W1'), rule('G0'), rule('G14'), rule('G21')],
+        'rules': [rule('G10'), rule('W3'), rule('W1'), rule('G0'), rule('G14'), rule('G21'), rule('X20')],
         'explanation': 'Strict entries cannot succeed before end of input; bracket helpers demand both delimiters; no closing delimiter or '
                        'block-closing keyword is optional anywhere in the grammar (G10, G0); failures are mapped to Error::Parse '
                        'through the origin map of the parsed text and to Error::Preprocess with the path being read (W3), '
                        'identically for both grammars (W1). The preprocessor grammar is made strict by all_consuming in its caller and is '
                        'itself total (many0 of items), so a preprocessor-level fault is reported where the repetition stopped: at the start '
                        'of the first item that does not parse, never after the fault (G21).',
-        'decided': 'G10 G0 W3 W1 G21',
+        'decided': 'G10 G0 W3 W1 G21 X20 (the location of an Error::Parse is present: origin() has no None path for a position whose segment has an origin)',
         'not_decided': 'that the Error::Parse position of the main grammar is not after the fault (GreedyError run-time maximum); that every '
                        'deletion makes some production fail',
         'assumptions': [],
